@@ -78,7 +78,7 @@ func init() {
 		stepWeightNeverDropped(c, "R15.14", []string{"pkg/trafficrouting/network/customNetworkProvider"}, 1)
 	})
 	extendProp("C03", "(R3.15) in all three providers the step's weight is absent only when strategy.Traffic is (0% is a weight: the providers take an absent weight for 'match step' or, in the scripts, for -1).", func(c *Ctx) {
-		stepWeightNeverDropped(c, "R3.15", []string{""}, 3)
+		stepWeightNeverDropped(c, "R3.15", []string{""}, 1)
 	})
 	extendProp("C16", "(R16.15) in the packages that take apart what a script returned there is no unchecked type assertion on a value that came from the script; (R16.14) decodeValue sets every key of a JSON object as the Lua string it is: the key handed to the table setter is lua.LString of the ranged map key, never a number or a computed value ('1' and 1 are different keys to a script, and integer keys turn the table into a list on the way back).", r9C16)
 	extendProp("C15", "(R15.15) the script getLuaScript answers with is looked up under the reference's API group and kind together: every script it returns is computed from ref.APIVersion as well as from ref.Kind.", r9C15)
